@@ -637,3 +637,74 @@ fire("c14-concatenate-split-points-as-arrays", "C14", B + "concatenate.py",
 fire("c02-partial-vectorised-child-logdet", "C02", B + "utils.py",
      "        y, log_det = self.bijection.transform_and_log_det(x[self.idxs], condition)",
      "        y, log_det = self.bijection._vectorize.transform_and_log_det(x[self.idxs], condition)", "C02.scalar")
+
+# ------------------------------------------------------------------------------ round 9 rules
+fire("c10-driver-carry-in-dtype-of-bounds", "C10", "flowjax/bisection_search.py",
+     "    init = (jnp.full(length, (upper + lower) / 2), 0)",
+     "    init = (jnp.full(length, (upper + lower) / 2, dtype=jnp.result_type(lower, upper)), 0)", "C10.driver")
+fire("c13-triangular-loc-not-broadcast", "C13", B + "affine.py",
+     "        self.loc = jnp.broadcast_to(loc, (dim,))", "        self.loc = loc", "C13.tri")
+fire("c14-chain-aliases-callers-list", "C14", B + "chain.py",
+     "        self.bijections = tuple(bijections)", "        self.bijections = bijections", "C14.immutable")
+fire("c03-log-prob-input-not-cast-to-float", "C03", "flowjax/distributions.py",
+     "        x = arraylike_to_array(x, err_name=\"x\", dtype=float)", "        x = arraylike_to_array(x, err_name=\"x\")",
+     "C03.public")
+
+_VF = "flowjax/train/variational_fit.py"
+_REC_CLASS = (
+    "class _FitState(NamedTuple):\n    params: PyTree\n    opt_state: PyTree\n    best_params: PyTree\n\n"
+    "    def result(self, *, return_best):\n        if return_best:\n            return self.best_params\n        return self.params\n\n\n"
+    "def fit_to_variational_target(")
+_REC_OLD_LOOP = (
+    "    opt_state = optimizer.init(params)\n\n    losses = []\n\n    best_params = params\n"
+    "    keys = tqdm(jr.split(key, steps), disable=not show_progress)\n\n    for key in keys:\n"
+    "        new_params, opt_state, loss = step(\n            params,\n            static,\n            key,\n"
+    "            optimizer=optimizer,\n            opt_state=opt_state,\n            loss_fn=loss_fn,\n        )\n"
+    "        losses.append(loss.item())\n        keys.set_postfix({\"loss\": loss.item()})\n"
+    "        if loss.item() == min(losses):\n            best_params = params  # The loss is evaluated before the update\n"
+    "        params = new_params\n    params = best_params if return_best else params\n")
+
+
+def _rec_loop(stored="state.params", flag="return_best"):
+    return (
+        "    state = _FitState(params=params, opt_state=optimizer.init(params), best_params=params)\n\n    losses = []\n"
+        "    keys = tqdm(jr.split(key, steps), disable=not show_progress)\n\n    for key in keys:\n"
+        "        new_params, new_opt_state, loss = step(\n            state.params,\n            static,\n            key,\n"
+        "            optimizer=optimizer,\n            opt_state=state.opt_state,\n            loss_fn=loss_fn,\n        )\n"
+        "        losses.append(loss.item())\n        keys.set_postfix({\"loss\": loss.item()})\n"
+        f"        best_params = {stored} if loss.item() == min(losses) else state.best_params\n"
+        "        state = _FitState(new_params, new_opt_state, best_params)\n"
+        f"    params = state.result(return_best={flag})\n")
+
+
+def _rec_variant(kind, id, rule=None, **kw):
+    CORPUS.append(dict(id=id, props=["C16"], expect=kind, rule=rule, edits=[
+        (_VF, "from collections.abc import Callable\n", "from collections.abc import Callable\nfrom typing import NamedTuple\n"),
+        (_VF, "def fit_to_variational_target(", _REC_CLASS),
+        (_VF, _REC_OLD_LOOP, _rec_loop(**kw))]))
+
+
+_rec_variant("silent", "c16-benign-loop-state-in-a-namedtuple")
+_rec_variant("fire", "c16-record-state-best-stores-updated-params", "C16.version", stored="new_params")
+_rec_variant("fire", "c16-record-state-selection-inverted", "C16.select", flag="not return_best")
+
+_TU = "flowjax/train/train_utils.py"
+_BATCH_OLD = (
+    "    return tuple(_add_batch(arr, batch_size) for arr in arrays)\n\n\n"
+    "def _add_batch(arr, batch_size):\n"
+    "    \"\"\"Adds a leading dimension for batches, dropping the last batch if truncated.\"\"\"\n"
+    "    batch_size = min(batch_size, arr.shape[0])\n"
+    "    n_batches = arr.shape[0] // batch_size\n"
+    "    return arr[: n_batches * batch_size].reshape(n_batches, batch_size, *arr.shape[1:])\n")
+
+
+def _batch_new(sl="arr[: n_batches * batch_size]"):
+    return (
+        "    batch_size = min(batch_size, data_len)\n    n_batches = data_len // batch_size\n"
+        "    return tuple(_add_batch(arr, n_batches, batch_size) for arr in arrays)\n\n\n"
+        "def _add_batch(arr, n_batches, batch_size):\n"
+        f"    return {sl}.reshape(n_batches, batch_size, *arr.shape[1:])\n")
+
+
+silent("c15-benign-batch-layout-hoisted-out-of-helper", "C15", _TU, _BATCH_OLD, _batch_new())
+fire("c15-hoisted-batch-layout-keeps-the-tail", "C15", _TU, _BATCH_OLD, _batch_new("arr[-n_batches * batch_size :]"), "C15.batch")
